@@ -29,6 +29,11 @@ func init() {
 }
 
 type bstSys struct {
+	// drift is the number of times a Delete of an absent key was observed to decrement the size
+	// counter (the recorded finding BsTree.Size/after-Delete(absent)/off-by--1). The search continues
+	// behind that defect with Size expected at len(model)-drift, so that other defects which only show
+	// in those states are still found; it is 0 on a tree without the defect.
+	drift int
 	name  string
 	t     *bstree.BsTree[int, string]
 	less  func(a, b int) bool
@@ -44,7 +49,9 @@ func (s *bstSys) Ops() []seqmc.Op {
 		for vi := range bstVals {
 			ops = append(ops, op("Upsert", k, vi))
 		}
-		ops = append(ops, op("Delete", k))
+		if _, present := s.model[k]; present || s.drift < 2 {
+			ops = append(ops, op("Delete", k)) // behind the recorded Size defect: at most two drifting deletes per history
+		}
 	}
 	return ops
 }
@@ -56,9 +63,14 @@ func (s *bstSys) Apply(o seqmc.Op, c *seqmc.Ctx) {
 		s.t.Upsert(k, bstVals[o.I[1]])
 		s.model[k] = bstVals[o.I[1]]
 	case "Delete":
+		size0 := s.t.Size()
 		err := s.t.Delete(k)
 		_, present := s.model[k]
 		delete(s.model, k)
+		if !present && s.t.Size() == size0-1 {
+			s.drift++
+			c.Soft(s.name+".Size/after-Delete(absent)/off-by--1", "Delete(%d) of an absent key decremented Size from %d to %d (present %v)", k, size0, size0-1, s.sorted())
+		}
 		if present && err != nil {
 			c.Soft(s.name+".Delete/present-key-reported-not-found", "Delete(%d) of a present key returned %v", k, err)
 		}
@@ -90,9 +102,9 @@ func (s *bstSys) sorted() []int {
 }
 
 func (s *bstSys) Observe(c *seqmc.Ctx) {
-	if n := s.t.Size(); n != len(s.model) {
-		cls := fmt.Sprintf("off-by-%+d", n-len(s.model))
-		c.Fail(s.name+".Size/"+cls, "Size = %d, want %d (present %v)", n, len(s.model), s.sorted())
+	if n := s.t.Size(); n != len(s.model)-s.drift {
+		cls := fmt.Sprintf("off-by-%+d", n-(len(s.model)-s.drift))
+		c.Fail(s.name+".Size/"+cls, "Size = %d, want %d (present %v; %d earlier absent-key deletes each took one off the counter)", n, len(s.model)-s.drift, s.sorted(), s.drift)
 	}
 	for k := -1; k <= s.keys; k++ {
 		it, err := s.t.Get(k)
@@ -117,4 +129,4 @@ func (s *bstSys) Observe(c *seqmc.Ctx) {
 	}
 }
 
-func (s *bstSys) Key() string { return seqmc.Dump(s.t) + "|" + fmt.Sprint(s.sorted(), s.model) }
+func (s *bstSys) Key() string { return seqmc.Dump(s.t) + "|" + fmt.Sprint(s.sorted(), s.model, s.drift) }
